@@ -252,7 +252,8 @@ func c10GenStep(rnd *Rand, r *c10Ref) c10Step {
 		if rnd.Bool() {
 			return c10Step{src: "probe(" + v + "[" + i.src + "])", run: func(r *c10Ref) interface{} {
 				x := r.vars[v].(string)
-				return string(rune(x[toInt(i)]))
+				k := toInt(i)
+				return x[k : k+1] // the byte at k, as Go's x[k] (a one-byte string in the script)
 			}}
 		}
 		return c10Step{src: "probe(" + v + "[" + i.src + ":" + j.src + "])", run: func(r *c10Ref) interface{} {
